@@ -34,7 +34,12 @@ def profile(N, wind=True):
 def mom(p, x, e=Fr(5, 3)):
     acc = Sym(0)
     for a, b in zip(numpy.asarray(p, dtype=object).flat, numpy.asarray(x, dtype=object).flat):
-        acc = acc + Sym.lift(a) * core.rat_pow(Sym.lift(b), e)
+        b = Sym.lift(b)
+        if b.isconc() and core._exact_root(b.re, e.denominator) is None:
+            # a concrete irrational power is the double the code itself computes (numpy float power)
+            acc = acc + Sym.lift(a) * Sym(float(b.re) ** float(e))
+        else:
+            acc = acc + Sym.lift(a) * core.rat_pow(b, e)
     return acc
 
 
@@ -69,7 +74,8 @@ def replay_el(hv, pv, wv, L):
         notes.append("5/3 height moment changes by %.3g" % m1)
     if wv is not None:
         w_el = out[2]
-        m2 = abs(numpy.sum(c_el[ok] * w_el[ok] ** (5. / 3)) - numpy.sum(pv * wv ** (5. / 3))) / numpy.sum(pv * wv ** (5. / 3))
+        wv = numpy.asarray(wv, dtype=float)
+        m2 = abs(numpy.sum(c_el[ok] * numpy.asarray(w_el, dtype=float)[ok] ** (5. / 3)) - numpy.sum(pv * wv ** (5. / 3))) / numpy.sum(pv * wv ** (5. / 3))
         if not numpy.isfinite(m2) or m2 > 1e-9:
             bad = True
             notes.append("5/3 wind moment changes by %.3g" % m2)
@@ -77,11 +83,16 @@ def replay_el(hv, pv, wv, L):
 
 
 # ------------------------------------------------------------------ equivalent layers (REAL)
-def case_el(ctx, N, L, wind):
+def case_el(ctx, N, L, wind, int_wind=None):
     pc = _pc()
     h, p, w, pre = profile(N, wind)
+    if int_wind is not None:
+        # wind given as an integer array (whole m/s): still a legal profile
+        w = numpy.array(int_wind, dtype=int)
+        pre = pre[:len(pre) - N]
     ctx.encoded(pc.equivalent_layers)
-    ctx.bounds.update(N=N, L=L, wind=wind, profile="strictly increasing symbolic heights >= 0, positive strengths / winds")
+    ctx.bounds.update(N=N, L=L, wind=wind if int_wind is None else "concrete integer array %s" % (list(int_wind),),
+                      profile="strictly increasing symbolic heights >= 0, positive strengths / winds")
 
     def go():
         with npx.symbolic(pc):
@@ -92,6 +103,9 @@ def case_el(ctx, N, L, wind):
         # the powers are atoms in the query, so the model's profile may be degenerate (e.g. uniform wind):
         # replay the model's profile and two generic seeded ones with the same slab occupancy
         last = None
+        if int_wind is not None:
+            hv, pv, _ = conc_profile(m, h, p, None)
+            return replay_el(hv, pv, numpy.array(int_wind, dtype=int), L)
         hv, pv, wv = conc_profile(m, h, p, w)
         cands = [(hv, pv, wv)]
         rng = rng_for("c18el%d%d" % (N, L))
@@ -379,6 +393,7 @@ def build_cases(tier):
         E += [(5, 3, True), (6, 3, False), (6, 2, True), (5, 4, False)]
     for N, L, wnd in E:
         cases.append(("equivalent_layers/N=%d/L=%d/%s" % (N, L, "wind" if wnd else "nowind"), case_el, dict(N=N, L=L, wind=wnd)))
+    cases.append(("equivalent_layers/N=3/L=2/integer-wind", case_el, dict(N=3, L=2, wind=True, int_wind=(3, 7, 12))))
     for L, t in ([(2, 30), (7, 60)] if tier == "quick" else [(2, 60), (3, 400), (4, 300), (5, 300), (6, 300), (7, 120), (8, 300)]):
         cases.append(("edges-fp/L=%d" % L, case_edges, dict(L=L, timeout_s=t)))
     O = [(3, 1, 1, None), (3, 2, 1, None), (4, 1, 1, (0, 1, 3, 7)), (4, 2, 1, (0, 1, 3, 7))]
